@@ -1,6 +1,9 @@
 package vsched
 
-import "unsafe"
+import (
+	"sync"
+	"unsafe"
+)
 
 func chanKey[T any](ch chan T) unsafe.Pointer { return *(*unsafe.Pointer)(unsafe.Pointer(&ch)) }
 
@@ -172,13 +175,19 @@ func Close[T any](site string, ch chan<- T) {
 // ---------------------------------------------------------------- sync
 
 // Mutex replaces sync.Mutex.
+// Outside an execution (raw scenarios on real sockets) it is a real mutex.
 type Mutex struct {
 	locked bool
+	real   sync.Mutex
 }
 
 func (m *Mutex) Lock() {
 	e := ex
-	if e == nil || e.inKill() {
+	if e == nil {
+		m.real.Lock()
+		return
+	}
+	if e.inKill() {
 		return
 	}
 	t := e.cur
@@ -201,7 +210,11 @@ func (m *Mutex) TryLock() bool {
 
 func (m *Mutex) Unlock() {
 	e := ex
-	if e == nil || e.killing {
+	if e == nil {
+		m.real.Unlock()
+		return
+	}
+	if e.killing {
 		return
 	}
 	if !m.locked {
@@ -261,10 +274,15 @@ func (m *RWMutex) RUnlock() {
 
 // WaitGroup replaces sync.WaitGroup.
 type WaitGroup struct {
-	n int
+	n    int
+	real sync.WaitGroup
 }
 
 func (w *WaitGroup) Add(d int) {
+	if ex == nil {
+		w.real.Add(d)
+		return
+	}
 	if d < 0 && ex != nil && ex.race != nil && !ex.killing {
 		ex.race.release(ex.cur, w)
 	}
@@ -278,7 +296,11 @@ func (w *WaitGroup) Done() { w.Add(-1) }
 
 func (w *WaitGroup) Wait() {
 	e := ex
-	if e == nil || e.inKill() {
+	if e == nil {
+		w.real.Wait()
+		return
+	}
+	if e.inKill() {
 		return
 	}
 	t := e.cur
